@@ -13,7 +13,7 @@ hs = [h for h in kani_run.load_harnesses() if h["name"] in a]
 missing = set(a) - {h["name"] for h in hs}
 if missing:
     print("not registered in kani/*.json:", missing); sys.exit(2)
-root = kani_run.make_overlay(kani_run.all_modules())
+root = kani_run.make_overlay(kani_run.all_modules({h["module"] for h in hs}))
 to = max(h.get("timeout", 300) for h in hs) + 120
 cmd, out, timed_out, wall = kani_run.run_group(root, hs, feats or hs[0].get("features", ""), to)
 log = os.path.join(kani_run.VERIF, ".work", f"krun_{os.getpid()}.log")
